@@ -517,6 +517,11 @@ def main(argv=None):
             contracts += [c for c in mods[mname].CONTRACTS if c.target == tgt]
         if args.only:
             contracts = [c for c in contracts if args.only in c.target]
+        for name in getattr(mod, "FORBIDDEN_IN_ENSURES", []):
+            for c in contracts:
+                for e in c.ensures:
+                    if name in e:
+                        run.errors.append("postcondition of %s mentions the constant %s" % (c.target, name))
         failed = verify_contracts(run, contracts, registry)
         triage(run, failed, known, mods)
         if not args.no_bounded:
